@@ -123,7 +123,7 @@ func cliLoop(dir, script string) *cliResult {
 
 func runCLI(w *out.W, tier string) {
 	w.Rule = "a case is non-trivial when SQLite accepted the schema and `atlas schema inspect` ran; distinct by feature-tag set"
-	n := 40
+	n := 30
 	if tier == "thorough" {
 		n = 600
 	}
